@@ -179,12 +179,24 @@ class BaseOverlay:
                 collection = HandlerCollection(handlers)
             else:
                 collection = curr.plus(handlers)
-            self.reset = HandlerCollection.current.set(collection)
+            HandlerCollection.current.set(collection)
             return collection
 
     def __exit__(self, typ, exc, tb):
         if self.handlers:
-            HandlerCollection.current.reset(self.reset)
+            # Remove our own handlers from the current collection. We cannot
+            # simply restore the collection that was current on entry, because
+            # overlays (e.g. global probes) may be exited in any order.
+            curr = HandlerCollection.current.get()
+            pairs = curr.handler_pairs if curr is not None else []
+            remaining = [
+                (sel, acc)
+                for sel, acc in pairs
+                if not any(acc is h for h in self.handlers)
+            ]
+            HandlerCollection.current.set(
+                type(curr)(remaining) if remaining else None
+            )
 
 
 class Overlay(BaseOverlay):
